@@ -63,6 +63,14 @@ pub enum C11Case {
         incompatible: Option<u16>,
         ops: Vec<StateOp>,
     },
+    /// many entries: `n` distinct keys (built by `new`, by `collect` or by inserts), then
+    /// overwrites of the keys at these positions; a state model with `n` features when n <= 1500
+    Big {
+        n: usize,
+        /// 0 new, 1 from_iter, 2 inserts
+        path: u8,
+        overwrite: Vec<u16>,
+    },
 }
 
 pub struct C11;
@@ -615,6 +623,12 @@ impl Prop for C11 {
     fn cases(&self, tier: Tier) -> u32 {
         tier.pick(120_000, 4_000_000)
     }
+    /// sizes around the widths an index could be narrowed to, and one beyond 16 bits
+    fn enumerated(&self, tier: Tier) -> Box<dyn Iterator<Item = C11Case> + '_> {
+        let mut sizes = vec![127usize, 128, 129, 255, 256, 257, 300, 1000];
+        sizes.push(tier.pick(70_000, 200_000));
+        Box::new(sizes.into_iter().flat_map(|n| (0u8..3).map(move |path| C11Case::Big { n, path, overwrite: vec![0, 40_000, 65_535] })))
+    }
     fn assumptions(&self) -> Vec<String> {
         vec![
             "CompactOrderedHashMap::new is only called with distinct keys (its documented precondition; no caller passes duplicates)".into(),
@@ -675,7 +689,9 @@ impl Prop for C11 {
                 incompatible,
                 ops,
             });
-        prop_oneof![1 => map, 1 => state].boxed()
+        let big = (prop_oneof![3 => 13usize..700, 1 => 700usize..3000], 0u8..3, proptest::collection::vec(any::<u16>(), 0..6))
+            .prop_map(|(n, path, overwrite)| C11Case::Big { n, path, overwrite });
+        prop_oneof![200 => map, 200 => state, 1 => big].boxed()
     }
     fn check(&self, case: &C11Case) -> Outcome {
         let mut o = Outcome::new();
@@ -695,7 +711,149 @@ impl Prop for C11 {
                 o.label("state-model");
                 check_state(*path, *split, features, overwrite, incompatible, ops, &mut o);
             }
+            C11Case::Big { n, path, overwrite } => {
+                o.label("many-entries");
+                check_big(*n, *path, overwrite, &mut o);
+            }
         }
         o
+    }
+}
+
+/// key i of a large map: distinct, and neither sorted nor grouped by length
+fn big_key(i: usize) -> String {
+    format!("k{}_{}", (i * 7919) % 10_007, i)
+}
+
+fn check_big(n: usize, path: u8, overwrite: &[u16], o: &mut Outcome) {
+    let entries: Vec<(String, i32)> = (0..n).map(|i| (big_key(i), i as i32 * 3 - 7)).collect();
+    let mut map: CompactOrderedHashMap<String, i32> = match path % 3 {
+        0 => CompactOrderedHashMap::new(entries.clone()),
+        1 => entries.clone().into_iter().collect(),
+        _ => {
+            let mut m = CompactOrderedHashMap::empty();
+            for (k, v) in entries.clone() {
+                if m.insert(k, v).is_some() {
+                    o.fail("C11/big/insert-of-a-new-key-returned-a-previous-value", json!({"n": n}));
+                    return;
+                }
+            }
+            m
+        }
+    };
+    o.label(format!("many-entries-path-{}", path % 3));
+    o.label(if n > 65_536 { "entries>65536" } else if n > 256 { "entries>256" } else { "entries<=256" });
+    o.nontrivial = n > 256;
+    let mut model = entries;
+    for w in overwrite {
+        let i = pick_idx(*w, n);
+        model[i].1 = -(i as i32) - 1;
+        let prev = map.insert(model[i].0.clone(), model[i].1);
+        if prev != Some(i as i32 * 3 - 7) && prev != Some(-(i as i32) - 1) {
+            o.fail("C11/big/overwrite-did-not-return-the-previous-value", json!({"n": n, "position": i, "got": prev}));
+            return;
+        }
+    }
+    if map.len() != n {
+        o.fail("C11/big/len", json!({"n": n, "len": map.len(), "path": path % 3}));
+        return;
+    }
+    // every key owns its own position
+    let mut seen = vec![false; n];
+    for (i, (k, v)) in model.iter().enumerate() {
+        let gi = map.get_index(k);
+        if gi != Some(i) || map.get(k) != Some(v) {
+            o.fail("C11/big/get_index", json!({"n": n, "path": path % 3, "key_position": i, "get_index": gi, "get": map.get(k), "want_value": v}));
+            return;
+        }
+        seen[i] = true;
+    }
+    // positional access and the iterators walk the entries (they scan per step: bounded sizes)
+    if n <= 3000 {
+        let probe: Vec<usize> = if n <= 700 { (0..n).collect() } else { vec![0, 1, 255, 256, 257, n / 2, n - 1] };
+        for i in probe {
+            let got = map.get_pair(i).map(|(k, v)| (k.clone(), *v));
+            if got.as_ref() != model.get(i) {
+                o.fail("C11/big/get_pair", json!({"n": n, "path": path % 3, "index": i, "got": got, "want": model.get(i)}));
+                return;
+            }
+        }
+        if map.get_pair(n).is_some() {
+            o.fail("C11/big/get_pair-beyond-the-end", json!({"n": n}));
+            return;
+        }
+        let it: Vec<(String, i32)> = map.iter().map(|(k, v)| (k.clone(), *v)).collect();
+        let keys: Vec<String> = map.keys().cloned().collect();
+        let iit: Vec<(usize, String)> = map.indexed_iter().map(|(i, (k, _))| (i, k.clone())).collect();
+        let tv: Vec<String> = map.to_vec().into_iter().map(|(k, _)| k).collect();
+        let want_keys: Vec<String> = model.iter().map(|(k, _)| k.clone()).collect();
+        if it != model || keys != want_keys || tv != want_keys || iit != want_keys.iter().cloned().enumerate().collect::<Vec<_>>() {
+            let first_bad = it.iter().zip(model.iter()).position(|(a, b)| a != b);
+            o.fail(
+                "C11/big/iteration-order",
+                json!({"n": n, "path": path % 3, "iter_len": it.len(), "keys_len": keys.len(), "indexed_iter_len": iit.len(), "to_vec_len": tv.len(), "first_position_where_iter_differs": first_bad}),
+            );
+            return;
+        }
+    }
+    // a state model with that many features: one slot each, initial values in their slots, a
+    // write through one name changes that slot only
+    if n <= 1500 {
+        use routee_compass_core::model::unit::DistanceUnit;
+        let feats: Vec<(String, StateFeature)> = (0..n)
+            .map(|i| (big_key(i), StateFeature::Distance { distance_unit: DistanceUnit::Meters, initial: Distance::new(i as f64 + 0.5) }))
+            .collect();
+        let sm = match path % 3 {
+            0 => StateModel::new(feats),
+            1 => match StateModel::empty().extend(feats) {
+                Ok(m) => m,
+                Err(e) => {
+                    o.fail("C11/big/state/extend-error", json!({"n": n, "error": e.to_string()}));
+                    return;
+                }
+            },
+            _ => {
+                let (a, b) = feats.split_at(n / 2);
+                match StateModel::new(a.to_vec()).extend(b.to_vec()) {
+                    Ok(m) => m,
+                    Err(e) => {
+                        o.fail("C11/big/state/extend-error", json!({"n": n, "error": e.to_string()}));
+                        return;
+                    }
+                }
+            }
+        };
+        let init = match sm.initial_state() {
+            Ok(s) => s,
+            Err(e) => {
+                o.fail("C11/big/state/initial-state-error", json!({"n": n, "error": e.to_string()}));
+                return;
+            }
+        };
+        if sm.len() != n || init.len() != n {
+            o.fail("C11/big/state/slot-count", json!({"features": n, "len": sm.len(), "initial_state_len": init.len()}));
+            return;
+        }
+        for i in [0, 1, 5, 127, 128, 255, 256, 257, n / 2, n - 1] {
+            if i >= n {
+                continue;
+            }
+            let name = big_key(i);
+            let got = sm.get_distance(&init, &name, &DistanceUnit::Meters).map(|d| d.as_f64()).ok();
+            if got != Some(i as f64 + 0.5) {
+                o.fail("C11/big/state/initial-value-not-in-the-feature's-slot", json!({"n": n, "feature_position": i, "got": got}));
+                return;
+            }
+            let mut st = init.clone();
+            if let Err(e) = sm.set_distance(&mut st, &name, &Distance::new(-42.0), &DistanceUnit::Meters) {
+                o.fail("C11/big/state/set-error", json!({"n": n, "feature_position": i, "error": e.to_string()}));
+                return;
+            }
+            let changed: Vec<usize> = (0..n).filter(|j| st[*j] != init[*j]).collect();
+            if changed != vec![i] {
+                o.fail("C11/big/state/write-through-one-name-changed-other-slots", json!({"n": n, "feature_position": i, "changed_slots": changed.iter().take(5).collect::<Vec<_>>()}));
+                return;
+            }
+        }
     }
 }
